@@ -124,6 +124,14 @@ def Sess.dropHandle (x : Sess) (id : Nat) (detached : Bool) : M Sess :=
         pure { x with st := st })
     pure (if h.holdsArena then x.decRef else x)
 
+/-- `hold` of the line protocol: `detach()` on an owned byte buffer that then stays alive until its `drop`. From now on
+it behaves like the handle of a zero-size owned object: it holds an arena value, its drop releases nothing and drops no
+value. Other handles are left alone. -/
+def Sess.hold (x : Sess) (id : Nat) : Sess :=
+  match x.find id with
+  | some hd => if hd.kind == .bytes && hd.owned && !hd.null then x.put id { hd with kind := .obj, null := true } else x
+  | none => x
+
 /-- the reference count equals the number of live arena values, counting the clone inside each owned handle -/
 def Sess.refsOK (x : Sess) : Prop :=
   x.refs = x.arenas.length + (x.handles.filter (fun p => p.2.holdsArena)).length ∧
